@@ -117,6 +117,23 @@ def run(tier, PROP):
                 if exp is not None and real[i] != exp:
                     chk.violation(f"{c[0]}-be-swap-width", f"forced big-endian {c[0]}: `{real[i]}`, a single byte reversal of the access width requires `{exp}`",
                                   {"line": lines[i], "real": real[i], "expected": exp, "build": "-DWASM_ENDIAN=WASM_BIG_ENDIAN"}, True)
+        if exe_be and PROP == "C19":
+            # the same forced-BE run with the header's PORTABLE mask-and-shift swaps (compilers without bswap intrinsics): every
+            # accessor must give what the intrinsic build gives (Props.C19 swapU*_plain_correct on the proof side)
+            try:
+                exe_bp = mo.build_be_plain(repo, d)
+                lines = [mo.line_for(c, "be") for c in cases]
+                real_p = mo_run(exe_bp, lines)
+                real_b = mo_run(exe_be, lines)
+                for i, c in enumerate(cases):
+                    chk.count_case(("be-plain", c[0], c[1], c[2], tuple(c[3])), True, None)
+                    exp = be_on_le_expect(c, sig)
+                    if real_p[i] != real_b[i] or (exp is not None and real_p[i] != exp):
+                        chk.violation(f"{c[0]}-be-portable-swap", f"forced big-endian {c[0]} built with the portable mask-and-shift swaps: `{real_p[i]}`, with the "
+                                      f"bswap intrinsics: `{real_b[i]}`" + (f", required `{exp}`" if exp is not None else ""),
+                                      {"line": lines[i], "real": real_p[i], "expected": exp if exp is not None else real_b[i], "build": "be-plain"}, True)
+            except Exception as e:
+                broken.append({"kind": "harness-build", "msg": "be-plain: " + str(e)[-800:]})
         chk.coverage["op_histogram"] = hist
         if PROP == "C05":
             # memory.grow and the CONTENTS of the new pages (real wasmMemoryGrow with a dirty realloc vs Model.GrowContent)
@@ -294,7 +311,7 @@ def replay(path, PROP):
         return c18.replay(path)
     with vlib.scratch("memr-") as d:
         repo = vlib.copy_repo(os.path.join(d, "repo"))
-        exe = mo.build(repo, d, big_endian=("build" in r))
+        exe = mo.build_be_plain(repo, d) if r.get("build") == "be-plain" else mo.build(repo, d, big_endian=("build" in r))
         out = mo_run(exe, [r["line"]], env={"MEMOPS_UNSHARED": "1"} if r.get("unshared") else None)[0]
     exp = r.get("spec", r.get("expected"))
     print(f"replay {r['line']!r}: real `{out}` expected `{exp}`")
